@@ -27,6 +27,25 @@ def _lit(rnd, rich=True):
     return M.lit(str(rnd.randint(0, 3)), DT_CUSTOM)
 
 
+def with_homographs(T, rnd, p=.3):
+    """inserts, next to each other in the document, values of one (subject, property) that print alike but are different terms:
+    the same lexical form with two datatypes, or an IRI and a literal with the same text"""
+    if not T or rnd.random() > p:
+        return T
+    subs = sorted({s for s, _p, _o in T})
+    props = sorted({pp for _s, pp, _o in T if pp != M.RDF_TYPE}) or [EX + "p0"]
+    s, pp = rnd.choice(subs), rnd.choice(props)
+    lex = str(rnd.randint(5, 9))
+    pair = rnd.choice([[M.lit(lex, M.XSD_INTEGER), M.lit(lex)], [M.lit(lex), M.lit(lex, DT_CUSTOM)],
+                       [M.iri(EX + "u0"), M.lit(EX + "u0")], [M.lit("true", M.XSD + "boolean"), M.lit("true")]])
+    rnd.shuffle(pair)
+    new = [(s, pp, o) for o in pair if (s, pp, o) not in T]
+    if len(new) < 2:
+        return T
+    i = rnd.randint(0, len(T))
+    return T[:i] + new + T[i:]
+
+
 def general_graph(rnd, max_nodes=7, bnodes=True, rich_literals=True, inst_prop=M.RDF_TYPE, odd_names=False):
     """2..max_nodes subject nodes (<= 25 % blank), 1-3 classes, nodes in 0-3 classes, 1-4 properties in two
     namespaces (one a prefix of the other), objects: typed / untyped IRIs, blank nodes, literals; 0-3 values"""
@@ -58,9 +77,17 @@ def general_graph(rnd, max_nodes=7, bnodes=True, rich_literals=True, inst_prop=M
                 else:
                     o = _lit(rnd, rich_literals)
                 T.add((n, p, o))
+    if rnd.random() < .25:      # the classes are described in the data too (typed with a meta-class, linked from / to nodes)
+        for c in classes:
+            if rnd.random() < .7:
+                T.add((M.iri(c), inst_prop, M.iri(EX + "Kind")))
+            if rnd.random() < .4:
+                T.add((M.iri(c), rnd.choice(props), rnd.choice(nodes)))
+            if rnd.random() < .3:
+                T.add((rnd.choice(nodes), rnd.choice(props), M.iri(c)))
     T = sorted(T, key=str)
     rnd.shuffle(T)
-    return T
+    return with_homographs(T, rnd) if rich_literals else T
 
 
 def dense_graph(rnd, inst_prop=M.RDF_TYPE):
@@ -137,7 +164,7 @@ def schema_graph(rnd, bnodes=True, inverse_safe=False):
                         T.add((n, p, _lit(rnd)))
     T = sorted(T, key=str)
     rnd.shuffle(T)
-    return T
+    return with_homographs(T, rnd)
 
 
 THRESHOLDS = [[0, 1], [0, 1], [1, 3], [1, 2], [51, 100], [2, 3], [1, 1]]
@@ -160,3 +187,54 @@ def classes_of(T, inst_prop=M.RDF_TYPE):
 
 def case(cid, T, **cfg):
     return {"id": cid, "graph": M.to_json_graph(T), "cfg": default_cfg(**cfg)}
+
+
+def boundary_graph(rnd):
+    """one class with n in 20..45 instances, features held by exactly k of them: thresholds k/n sit exactly on a boundary
+    for larger n than the small graphs reach (float(k)/n vs threshold arithmetic)"""
+    n = rnd.choice([25, 25, 29, 35, 38, 41, 45, 20, 33])
+    C = EX + "Wide"
+    nodes = [M.iri(EX + "w%d" % i) for i in range(n)]
+    ks = [rnd.randint(1, n - 1) for _ in range(3)]
+    if n == 25:
+        ks[0] = rnd.choice([7, 14])
+    if n == 29:
+        ks[0] = 15
+    if n == 35:
+        ks[0] = 29
+    if n == 38:
+        ks[0] = 21
+    T = [(x, M.RDF_TYPE, M.iri(C)) for x in nodes]
+    for j, k in enumerate(ks):
+        for x in rnd.sample(nodes, k):
+            T.append((x, EX + "f%d" % j, M.lit("v") if j != 1 else nodes[0]))
+    rnd.shuffle(T)
+    return T, [[k, n] for k in ks]
+
+
+def chain_case(rnd, cid):
+    """shape-map shapes L0 -> L1 -> ... -> Ln linked by one property; the last shape has no feature shared by all its nodes, the
+    middle ones only the link: with a threshold the removal of the last shape cascades backwards (remove_empty_shapes)"""
+    n = rnd.randint(2, 4)
+    per = rnd.randint(2, 3)
+    T = []
+    items = []
+    nodes = [[M.iri(EX + "c%d_%d" % (i, j)) for j in range(per)] for i in range(n + 1)]
+    for i in range(n + 1):
+        for x in nodes[i]:
+            items.append({"label": EX + "shapes/L%d" % i, "labelSpelling": "bracket", "spelling": "bracket", "kind": "node", "node": list(x)})
+    for i in range(n):
+        for j, x in enumerate(nodes[i]):
+            T.append((x, EX + "next", nodes[i + 1][j % per]))
+            if rnd.random() < .3:
+                T.append((x, EX + "next", nodes[i + 1][(j + 1) % per]))
+    for x in nodes[0]:
+        T.append((x, EX + "name", M.lit("v")))
+    for j, x in enumerate(nodes[n]):
+        T.append((x, EX + "odd%d" % j, M.lit("w")))
+    if rnd.random() < .4:
+        for x in nodes[rnd.randint(1, n - 1)] if n > 1 else []:
+            T.append((x, EX + "extra", M.lit("e")))
+    rnd.shuffle(T)
+    return case(cid, T, mode="shapemap", items=items, thr=rnd.choice([[1, 1], [1, 1], [2, 3], [51, 100]]), removeEmpty=rnd.random() < .85,
+                nsDict=NSDICT, inverse=rnd.random() < .2)
